@@ -150,6 +150,8 @@ def map_children(t: Term, r: Callable[[Term], Term]) -> Term:
 
 def strip_ver(t: Term) -> Term:
     """Drop version tags, call occurrence ids and @epoch markers (the syntactic access path)."""
+    if t is None:
+        return ("sym", "<no term>")  # e.g. the iterable of a while loop: matches nothing, crashes nothing
     if not isinstance(t, tuple) or not t:
         return t
     k = t[0]
@@ -288,6 +290,25 @@ def normalise(t: Term) -> Term:
             if inner[0] == "comp" and inner[1] == "seq":
                 return ("comp", "seq", inner[2], tuple(outer[3]) + tuple(inner[3]))
             return ("comp", "seq", ("bound", "_flat"), tuple(outer[3]) + ((("_flat",), inner, ()),))
+    # map(operator.attrgetter('a'), xs) / map(operator.methodcaller('m'), xs): the element-wise read / call
+    if k == "call" and t[1] == ("name", "map") and not t[3] and len(t[2]) == 2 and t[2][0][0] == "call" and not t[2][0][3] and t[2][0][2] and t[2][0][2][0][0] == "const" and isinstance(t[2][0][2][0][1], str):
+        fk = key(t[2][0][1])
+        nm = t[2][0][2][0][1]
+        if fk in ("operator.attrgetter", "attrgetter") and len(t[2][0][2]) == 1 and "." not in nm:
+            return normalise(("comp", "seq", ("attr", ("bound", "_x"), nm), ((("_x",), t[2][1], ()),)))
+        if fk in ("operator.methodcaller", "methodcaller"):
+            return normalise(("comp", "seq", ("call", ("attr", ("bound", "_x"), nm), tuple(t[2][0][2][1:]), (), None), ((("_x",), t[2][1], ()),)))
+    # itertools.chain.from_iterable(X) walks the elements of the elements of X, like sum(X, []);
+    # itertools.chain(a, b) walks a then b, like a + b
+    if k == "call" and key(t[1]) in ("itertools.chain.from_iterable", "chain.from_iterable") and not t[3] and len(t[2]) == 1:
+        x = t[2][0]
+        if x[0] == "comp" and x[1] in ("seq", "listcomp", "genexp"):
+            return normalise(("call", ("name", "sum"), (("comp", "seq", x[2], x[3]), ("list", ())), (), None))
+    if k == "call" and key(t[1]) in ("itertools.chain", "chain") and not t[3] and len(t[2]) >= 2:
+        acc = t[2][0]
+        for nxt in t[2][1:]:
+            acc = ("bin", "+", acc, nxt)
+        return acc
     # functools.reduce(operator.iconcat / add / concat, [E for ..], []) with a fresh empty start is the same
     # concatenation as sum([...], []) (without the start value iconcat would extend the first list in place)
     if k == "call" and key(t[1]) in ("functools.reduce", "reduce") and not t[3] and len(t[2]) == 3 and key(t[2][0]) in ("operator.iconcat", "operator.add", "operator.concat", "iconcat", "add", "concat"):
